@@ -304,10 +304,31 @@ def native_cpp(k, tier, kdir, sanitize=False):
                 sh(['objcopy'] + args + [tu_o])
     link = ['g++'] + san + objs + ['-o', exe]
     if k.get('link_lib', True):
-        link += ['-L' + LIBDIR, '-lgstlearn', '-Wl,-rpath,' + LIBDIR]
+        link += [repo_archive(), REPO + '/_build/3rd-party/csparse/libcsparse.a',
+                 REPO + '/_build/3rd-party/gmtsph/libgmtsph.a', '-lnlopt', '-lgomp', '-lpthread',
+                 '-Wl,--allow-multiple-definition']
     link += ['-lm'] + k.get('ldflags', [])
     sh(link)
     return exe
+
+
+def repo_archive():
+    """thin archive over the object files of the repository's own build (everything that is
+    not freshly compiled for a kernel is taken from there)"""
+    a = os.path.join(BUILD, 'libgst_all.a')
+    objdir = REPO + '/_build/CMakeFiles/shared.dir'
+    if not os.path.exists(a) or os.path.getmtime(a) < os.path.getmtime(objdir):
+        objs = []
+        for root, _, files in os.walk(objdir):
+            for f in files:
+                if f.endswith('.o'):
+                    objs.append(os.path.join(root, f))
+        if not objs:
+            raise BuildError('no object files under %s: build the repository first (setup_cmd)' % objdir)
+        tmp = a + '.%d' % os.getpid()
+        sh(['ar', 'rcsT', tmp] + sorted(objs))
+        os.replace(tmp, a)
+    return a
 
 
 def run_native(exe, stream=None, replay=None, timeout=60):
